@@ -633,4 +633,414 @@ theorem restoreAt_is_model (user : User σ π μ) (g : GR σ π) (s : Snapshot) 
     have hfold := foldl_set s.vars [] (by simpa using hs)
     ir_simp [hf, R.restore, GR.abs, hfold]
 
+
+/-! ### Next -/
+
+/-- the locals of `Next` on entry of its segments: the choice, five locals, seventeen not yet assigned -/
+def envN (c : Nat) (a1 a2 a3 a4 a5 : GV μ) : List (GV μ) :=
+  [.int c, a1, a2, a3, a4, a5, .nil, .nil, .nil, .nil, .nil, .nil, .nil, .nil, .nil, .nil, .nil, .nil, .nil, .nil, .nil, .nil, .nil]
+
+def nextPoll : List GS := fn_Next.body.take 1
+def nextChoice : List GS := (fn_Next.body.drop 1).take 1
+def nextFetch : List GS := (fn_Next.body.drop 2).take 5
+def nextSwitch : List GS := fn_Next.body.drop 7
+
+theorem next_shape : fn_Next.body = nextPoll ++ (nextChoice ++ (nextFetch ++ nextSwitch)) := rfl
+
+/-- the `select` with `default` at the top of `Next` is `poll` -/
+theorem next_poll (user : User σ π μ) (c : Nat) (d : Data σ π) (stack : List SQ) (last : Option Stmt) :
+    ∃ b1, execSs henv mkp prog user .dr (envN c .nil .nil .nil .nil .nil) nextPoll ⟨d, stack, last⟩ =
+      match poll (μ := μ) d with
+      | (d', none) => .norm (envN c b1 .nil .nil .nil .nil) ⟨d', stack, last⟩
+      | (d', some (.ok _)) => .ret [.nil, .errWaiting] ⟨d', stack, last⟩
+      | (d', some (.err _)) => .ret [.nil, .err] ⟨d', stack, last⟩
+      | (d', some (.panic q)) => .panic q ⟨d', stack, last⟩ := by
+  simp only [nextPoll, fn_Next, List.take]
+  cases hp : d.pending with
+  | none => exact ⟨.nil, by ir_simp [hp, poll, envN]⟩
+  | some o =>
+    cases o with
+    | none => exact ⟨.nil, by ir_simp [hp, poll, envN]⟩
+    | some f => cases f <;> exact ⟨.nil, by ir_simp [hp, poll, envN]⟩
+
+/-- the choice block: nothing unless the last statement is an option group; then the chosen body is pushed (unless
+empty) and the choice is forgotten; an index out of range panics before anything is changed -/
+theorem next_choice (user : User σ π μ) (c : Nat) (d : Data σ π) (stack : List SQ) (last : Option Stmt) (b1 : GV μ)
+    (hw : ∀ d stack last, user "isWaitingForChoice" .dr [] ⟨d, stack, last⟩ =
+      .ret [.bool ((GR.abs ⟨d, stack, last⟩).waiting.isSome)] ⟨d, stack, last⟩) :
+    ∃ b2, execSs henv mkp prog user .dr (envN c b1 .nil .nil .nil .nil) nextChoice ⟨d, stack, last⟩ =
+      match last.bind isOpts with
+      | none => .norm (envN c b1 b2 .nil .nil .nil) ⟨d, stack, last⟩
+      | some bodies =>
+        (match bodies[c]? with
+         | none => .panic .index ⟨d, stack, last⟩
+         | some b => if b.length ≠ 0 then .norm (envN c b1 b2 .nil .nil .nil) ⟨d, ⟨b, 0⟩ :: stack, none⟩
+                     else .norm (envN c b1 b2 .nil .nil .nil) ⟨d, stack, none⟩) := by
+  simp only [nextChoice, fn_Next, List.take, List.drop]
+  cases last with
+  | none => exact ⟨.nil, by ir_simp [hw, GR.abs, envN]⟩
+  | some s =>
+    cases s with
+    | opts os =>
+      cases ho : os[c]? with
+      | none => exact ⟨.nil, by ir_simp [hw, GR.abs, envN, isOpts, ho]⟩
+      | some lb =>
+        obtain ⟨l, b⟩ := lb
+        cases hb : (b.length == 0) with
+        | true => have h : b.length = 0 := by simpa using hb
+                  have h' : b = [] := by simpa using h
+                  exact ⟨.stmts b, by ir_simp [hw, GR.abs, envN, isOpts, ho, hb, h, h']⟩
+        | false => have h : ¬ b.length = 0 := by simpa using hb
+                   have h' : ¬ b = [] := by simpa using h
+                   exact ⟨.stmts b, by ir_simp [hw, GR.abs, envN, isOpts, ho, hb, h, h']⟩
+    | line l => exact ⟨.nil, by ir_simp [hw, GR.abs, envN, isOpts]⟩
+    | set v o e => exact ⟨.nil, by ir_simp [hw, GR.abs, envN, isOpts]⟩
+    | jump e => exact ⟨.nil, by ir_simp [hw, GR.abs, envN, isOpts]⟩
+    | ifs cs => exact ⟨.nil, by ir_simp [hw, GR.abs, envN, isOpts]⟩
+    | cmd es => exact ⟨.nil, by ir_simp [hw, GR.abs, envN, isOpts]⟩
+    | call f es => exact ⟨.nil, by ir_simp [hw, GR.abs, envN, isOpts]⟩
+    | empty => exact ⟨.nil, by ir_simp [hw, GR.abs, envN, isOpts]⟩
+
+/-- end of the dialogue, or the next statement of the top queue fetched (pointer advanced, `lastStatement` set), or an
+exhausted queue popped and `Next` called again -/
+theorem next_fetch (user : User σ π μ) (c : Nat) (d : Data σ π) (stack : List SQ) (last : Option Stmt) (b1 b2 : GV μ)
+    (hn : ∀ d q rest last, user "nextStatement" (.qref rest.length) [] ⟨d, q :: rest, last⟩ =
+      match q.stmts[q.ptr]? with
+      | none => .ret [.nil, .bool false] ⟨d, q :: rest, last⟩
+      | some s => .ret [.stmt s, .bool true] ⟨d, { q with ptr := q.ptr + 1 } :: rest, last⟩) :
+    execSs henv mkp prog user .dr (envN c b1 b2 .nil .nil .nil) nextFetch ⟨d, stack, last⟩ =
+      match stack with
+      | [] => .ret [.nil, .nil] ⟨d, [], last⟩
+      | q :: rest =>
+        (match q.stmts[q.ptr]? with
+         | none => .tail [.int c] ⟨d, rest, last⟩
+         | some st => .norm (envN c b1 b2 (.qref rest.length) (.stmt st) (.bool true))
+                        ⟨d, { q with ptr := q.ptr + 1 } :: rest, some st⟩) := by
+  simp only [nextFetch, fn_Next, List.take, List.drop]
+  cases stack with
+  | nil => ir_simp [envN]
+  | cons q rest =>
+    cases hq : q.stmts[q.ptr]? with
+    | none => ir_simp [envN, hn, hq]
+    | some st => ir_simp [envN, hn, hq]
+
+
+def iteThn : GS → List GS | .ite _ _ t _ => t | _ => []
+def iteEls : GS → List GS | .ite _ _ _ e => e | _ => []
+def hd (l : List GS) : GS := match l with | s :: _ => s | [] => .unsupported "empty"
+
+def lineBranch : List GS := iteThn (hd nextSwitch)
+def optBranch : List GS := iteThn (hd (iteEls (hd nextSwitch)))
+def otherBranch : List GS := iteEls (hd (iteEls (hd nextSwitch)))
+def finalRet : List GS := nextSwitch.drop 1
+
+theorem switch_shape : nextSwitch =
+    .ite [] (.bin "!=" (.sel (.loc 4) "LineStatement") .nilE) lineBranch
+      [.ite [] (.bin "!=" (.sel (.loc 4) "ShortcutOptionStatement") .nilE) optBranch otherBranch] :: finalRet := rfl
+
+/-- errors are compared as errors -/
+def eraseKind {α} : Outcome α → Outcome α | .err _ => .err .other | o => o
+
+/-- what one pass of `Next` over the statement `st` returns and leaves behind, read off the model's `exec` -/
+def stepRes (c : Nat) (x : Data σ π × Ctl × Option (Outcome (Elem μ))) (stk : List SQ) (st : Stmt) : SRes σ π μ :=
+  match x.2.2 with
+  | none => .tail [.int c] ⟨x.1, applyCtlR x.2.1 stk, some st⟩
+  | some (.ok .ended) => .ret [.nil, .nil] ⟨x.1, applyCtlR x.2.1 stk, some st⟩
+  | some (.ok .waiting) => .ret [.nil, .errWaiting] ⟨x.1, applyCtlR x.2.1 stk, some st⟩
+  | some (.ok e) => .ret [.elem e, .nil] ⟨x.1, applyCtlR x.2.1 stk, some st⟩
+  | some (.err _) => .ret [.nil, .err] ⟨x.1, applyCtlR x.2.1 stk, if (isOpts st).isSome then none else some st⟩
+  | some (.panic q) => .panic q ⟨x.1, applyCtlR x.2.1 stk, some st⟩
+
+theorem renderLine_elems (st : Store) (vis : Map Nat) (l : LineSpec) (w : W σ) (ms : π) :
+    renderLine henv mkp st vis { elems := l.elems } w ms = renderLine henv mkp st vis l w ms := by
+  simp [renderLine]
+
+theorem switch_line (user : User σ π μ) (c : Nat) (d : Data σ π) (stk : List SQ) (a1 a2 a3 a5 : GV μ) (l : LineSpec) :
+    execSs henv mkp prog user .dr (envN c a1 a2 a3 (.stmt (.line l)) a5) nextSwitch ⟨d, stk, some (.line l)⟩ =
+      stepRes c (exec henv mkp prog d (.line l)) stk (.line l) := by
+  rw [switch_shape]
+  simp only [lineBranch, nextSwitch, fn_Next, List.drop, hd, iteThn]
+  cases hr : renderLine henv mkp d.store d.visited l d.w d.ms with
+  | mk o wm =>
+    obtain ⟨w, ms⟩ := wm
+    cases o <;> ir_simp [envN, renderLine_elems, hr, exec, stepRes, applyCtlR, isOpts]
+
+theorem execSs_nil (user : User σ π μ) (self : GV μ) (env : List (GV μ)) (g : GR σ π) :
+    execSs henv mkp prog user self env [] g = .norm env g := by simp [execSs]
+theorem execSs_single (user : User σ π μ) (self : GV μ) (env : List (GV μ)) (s : GS) (g : GR σ π) :
+    execSs henv mkp prog user self env [s] g = execS henv mkp prog user self env s g := by
+  simp only [execSs]; cases execS henv mkp prog user self env s g <;> rfl
+theorem execSs_cons' (user : User σ π μ) (self : GV μ) (env : List (GV μ)) (s : GS) (ss : List GS) (g : GR σ π) :
+    execSs henv mkp prog user self env (s :: ss) g =
+      match execS henv mkp prog user self env s g with
+      | .norm env g => execSs henv mkp prog user self env ss g
+      | r => r := by
+  simp only [execSs]
+  cases execS henv mkp prog user self env s g <;> rfl
+
+/-- a statement that is neither a line nor an option group goes to the rest of the chain -/
+theorem switch_other (user : User σ π μ) (c : Nat) (d : Data σ π) (stk : List SQ) (a1 a2 a3 a5 : GV μ) (st : Stmt)
+    (hl : ∀ l, st ≠ .line l) (ho : ∀ os, st ≠ .opts os) :
+    execSs henv mkp prog user .dr (envN c a1 a2 a3 (.stmt st) a5) nextSwitch ⟨d, stk, some st⟩ =
+      match execSs henv mkp prog user .dr (envN c a1 a2 a3 (.stmt st) a5) otherBranch ⟨d, stk, some st⟩ with
+      | .norm env g => execSs henv mkp prog user .dr env finalRet g
+      | r => r := by
+  rw [switch_shape, execSs_cons']
+  cases st with
+  | line l => exact absurd rfl (hl l)
+  | opts os => exact absurd rfl (ho os)
+  | set v o e => simp [execSs_nil, execSs_single, execS, evalE, envN, field, fieldPure, binop, veq, isNil]
+  | jump e => simp [execSs_nil, execSs_single, execS, evalE, envN, field, fieldPure, binop, veq, isNil]
+  | ifs cs => simp [execSs_nil, execSs_single, execS, evalE, envN, field, fieldPure, binop, veq, isNil]
+  | cmd es => simp [execSs_nil, execSs_single, execS, evalE, envN, field, fieldPure, binop, veq, isNil]
+  | call f es => simp [execSs_nil, execSs_single, execS, evalE, envN, field, fieldPure, binop, veq, isNil]
+  | empty => simp [execSs_nil, execSs_single, execS, evalE, envN, field, fieldPure, binop, veq, isNil]
+
+/-- the rest of the chain: set, jump, if, command, call (and declare, which no model statement is), each through its
+helper; a statement with no field set falls through to the final error -/
+theorem switch_rest (user : User σ π μ) (c : Nat) (d : Data σ π) (stk : List SQ) (a1 a2 a3 a5 : GV μ) (st : Stmt)
+    (hl : ∀ l, st ≠ .line l) (ho : ∀ os, st ≠ .opts os) (hp : d.pending = none)
+    (hset : ∀ d stack last v op e, user "executeSetStatement" .dr [.setS v op e] ⟨d, stack, last⟩ =
+      helperRes (exec henv mkp prog d (.set v op e)) stack last)
+    (hjump : ∀ d stack last e, user "executeJumpStatement" .dr [.jumpS e] ⟨d, stack, last⟩ =
+      helperRes (keepLog d.jumpLog (exec henv mkp prog d (.jump e))) stack last)
+    (hif : ∀ d stack last cs, user "executeIfStatement" .dr [.ifS cs] ⟨d, stack, last⟩ =
+      helperRes (exec henv mkp prog d (.ifs cs)) stack last)
+    (hcmd : ∀ d stack last es, user "executeCommandStatement" .dr [.cmdS es] ⟨d, stack, last⟩ =
+      cmdRes (exec henv mkp prog d (.cmd es)) stack last)
+    (hcall : ∀ d stack last f es, user "executeCallStatement" .dr [.callS f es] ⟨d, stack, last⟩ =
+      helperRes (exec henv mkp prog d (.call f es)) stack last) :
+    execSs henv mkp prog user .dr (envN c a1 a2 a3 (.stmt st) a5) nextSwitch ⟨d, stk, some st⟩ =
+      stepRes c (keepLog d.jumpLog (exec henv mkp prog d st)) stk st := by
+  rw [switch_other henv mkp prog user c d stk a1 a2 a3 a5 st hl ho]
+  simp only [otherBranch, finalRet, nextSwitch, fn_Next, List.drop, hd, iteEls]
+  cases st with
+  | line l => exact absurd rfl (hl l)
+  | opts os => exact absurd rfl (ho os)
+  | empty => ir_simp [envN, exec, stepRes, keepLog, applyCtlR, isOpts]
+  | set v o e =>
+    cases he : eval henv d.store d.visited e d.w with
+    | mk r w =>
+      cases r with
+      | err k => ir_simp [envN, hset, exec, he, helperRes, stepRes, keepLog, applyCtlR, isOpts]
+      | panic q => ir_simp [envN, hset, exec, he, helperRes, stepRes, keepLog, applyCtlR, isOpts]
+      | ok x =>
+        cases ha : applyAssign o (d.store.get v) x <;>
+          ir_simp [envN, hset, exec, he, ha, helperRes, stepRes, keepLog, applyCtlR, isOpts]
+  | jump e =>
+    cases he : eval henv d.store d.visited e d.w with
+    | mk r w =>
+      cases r with
+      | err k => ir_simp [envN, hjump, exec, he, helperRes, stepRes, keepLog, applyCtlR, isOpts]
+      | panic q => ir_simp [envN, hjump, exec, he, helperRes, stepRes, keepLog, applyCtlR, isOpts]
+      | ok x =>
+        cases x with
+        | num a => ir_simp [envN, hjump, exec, he, helperRes, stepRes, keepLog, applyCtlR, isOpts]
+        | bool a => ir_simp [envN, hjump, exec, he, helperRes, stepRes, keepLog, applyCtlR, isOpts]
+        | str t =>
+          cases hf : prog.find t <;>
+            ir_simp [envN, hjump, exec, he, hf, helperRes, stepRes, keepLog, applyCtlR, isOpts]
+  | ifs cs =>
+    cases hf : firstTrue henv d.store d.visited cs d.w with
+    | mk r w =>
+      cases r with
+      | err k => ir_simp [envN, hif, exec, hf, helperRes, stepRes, keepLog, applyCtlR, isOpts]
+      | panic q => ir_simp [envN, hif, exec, hf, helperRes, stepRes, keepLog, applyCtlR, isOpts]
+      | ok x => cases x <;> ir_simp [envN, hif, exec, hf, helperRes, stepRes, keepLog, applyCtlR, isOpts]
+  | call f es =>
+    cases hr : evalArgs henv d.store d.visited es d.w with
+    | mk r w =>
+      cases r with
+      | err k => ir_simp [envN, hcall, exec, hr, helperRes, stepRes, keepLog, applyCtlR, isOpts]
+      | panic q => ir_simp [envN, hcall, exec, hr, helperRes, stepRes, keepLog, applyCtlR, isOpts]
+      | ok vs =>
+        cases hc : callFn henv d.visited f vs w with
+        | mk r2 w2 => cases r2 <;> ir_simp [envN, hcall, exec, hr, hc, helperRes, stepRes, keepLog, applyCtlR, isOpts]
+  | cmd es =>
+    cases es with
+    | nil => ir_simp [envN, hcmd, exec, cmdRes, stepRes, keepLog, applyCtlR, isOpts]
+    | cons e0 es0 =>
+      cases hr : evalArgs henv d.store d.visited (e0 :: es0) d.w with
+      | mk r w =>
+        cases r with
+        | err k => ir_simp [envN, hcmd, exec, hr, cmdRes, stepRes, keepLog, applyCtlR, isOpts]
+        | panic q => ir_simp [envN, hcmd, exec, hr, cmdRes, stepRes, keepLog, applyCtlR, isOpts]
+        | ok vs =>
+          cases vs with
+          | nil => ir_simp [envN, hcmd, exec, hr, cmdRes, stepRes, keepLog, applyCtlR, isOpts]
+          | cons v args =>
+            cases v with
+            | num a => ir_simp [envN, hcmd, exec, hr, cmdRes, stepRes, keepLog, applyCtlR, isOpts]
+            | bool a => ir_simp [envN, hcmd, exec, hr, cmdRes, stepRes, keepLog, applyCtlR, isOpts]
+            | str name =>
+              by_cases hs : name = "stop"
+              · ir_simp [envN, hcmd, exec, hr, hs, cmdRes, stepRes, keepLog, applyCtlR, isOpts]
+              · cases hc : henv.cmd name args w.host with
+                | mk o h' => cases o <;> ir_simp [envN, hcmd, exec, hr, hs, hc, hp, cmdRes, stepRes, keepLog, applyCtlR, isOpts]
+
+/-! #### the option group -/
+
+def optPre : List GS := optBranch.take 1
+def optBody : List GS := match optBranch.drop 1 with | s :: _ => rangeBody s | [] => []
+def optPost : List GS := optBranch.drop 2
+
+theorem opt_shape : optBranch = optPre ++
+    (.range (some 9) (some 10) (.sel (.sel (.loc 4) "ShortcutOptionStatement") "Options") optBody :: optPost) := rfl
+
+/-- one option of `renderOptions`: its line through the markup pass, then its condition -/
+def optStep (st : Store) (vis : Map Nat) (l : LineSpec) (w : W σ) (ms : π) : Outcome (μ × List String × Bool) × W σ × π :=
+  match renderLine henv mkp st vis l w ms with
+  | (.ok t, w, ms) =>
+    (match l.cond with
+     | none => (.ok (t, l.tags, false), w, ms)
+     | some cnd =>
+       (match eval henv st vis cnd w with
+        | (.ok (.bool bb), w) => (.ok (t, l.tags, !bb), w, ms)
+        | (.ok _, w) => (.err .illTyped, w, ms)
+        | (.err k, w) => (.err k, w, ms)
+        | (.panic q, w) => (.panic q, w, ms)))
+  | (.err k, w, ms) => (.err k, w, ms)
+  | (.panic q, w, ms) => (.panic q, w, ms)
+
+theorem renderOptions_cons (st : Store) (vis : Map Nat) (l : LineSpec) (b : List Stmt) (os : List (LineSpec × List Stmt))
+    (w : W σ) (ms : π) :
+    renderOptions henv mkp st vis ((l, b) :: os) w ms =
+      match optStep henv mkp st vis l w ms with
+      | (.ok o, w', ms') =>
+        (match renderOptions henv mkp st vis os w' ms' with
+         | (.ok r, w, ms) => (.ok (o :: r), w, ms)
+         | r => r)
+      | (.err k, w', ms') => (.err k, w', ms')
+      | (.panic q, w', ms') => (.panic q, w', ms') := by
+  rw [renderOptions]
+  simp only [optStep]
+  cases hr : renderLine henv mkp st vis l w ms with
+  | mk o wm =>
+    obtain ⟨w1, ms1⟩ := wm
+    cases o with
+    | err k => simp
+    | panic q => simp
+    | ok t =>
+      cases hc : l.cond with
+      | none =>
+        simp
+        cases renderOptions henv mkp st vis os w1 ms1 with
+        | mk o3 wm => obtain ⟨w3, ms3⟩ := wm; cases o3 <;> rfl
+      | some cnd =>
+        cases he : eval henv st vis cnd w1 with
+        | mk o2 w2 =>
+          cases o2 with
+          | err k => simp [he]
+          | panic q => simp [he]
+          | ok v =>
+            cases v with
+            | num x => simp [he]
+            | str x => simp [he]
+            | bool bb =>
+              simp [he]
+              cases renderOptions henv mkp st vis os w2 ms1 with
+              | mk o3 wm => obtain ⟨w3, ms3⟩ := wm; cases o3 <;> rfl
+
+theorem opt_body (user : User σ π μ) (c : Nat) (d : Data σ π) (stk : List SQ) (last : Option Stmt)
+    (a1 a2 a3 a4 a5 a6 a7 a11 a12 a13 a14 a15 : GV μ) (acc : List (μ × List String × Bool)) (i : Nat) (l : LineSpec) (b : List Stmt) :
+    ∃ b11 b12 b13 b14 b15,
+    execSs henv mkp prog user .dr [.int c, a1, a2, a3, a4, a5, a6, a7, .optVs (acc), .int i, .opt (l, b), a11, a12, a13, a14, a15, .nil, .nil, .nil, .nil, .nil, .nil, .nil] optBody ⟨d, stk, last⟩ =
+      match optStep henv mkp d.store d.visited l d.w d.ms with
+      | (.ok o, w, ms) => .norm [.int c, a1, a2, a3, a4, a5, a6, a7, .optVs (acc ++ [o]), .int i, .opt (l, b), b11, b12, b13, b14, b15, .nil, .nil, .nil, .nil, .nil, .nil, .nil] ⟨{ d with w := w, ms := ms }, stk, last⟩
+      | (.err _, w, ms) => .ret [.nil, .err] ⟨{ d with w := w, ms := ms }, stk, none⟩
+      | (.panic q, w, ms) => .panic q ⟨{ d with w := w, ms := ms }, stk, last⟩ := by
+  simp only [optBody, optBranch, nextSwitch, fn_Next, List.drop, hd, iteThn, iteEls, rangeBody, optStep]
+  cases hr : renderLine henv mkp d.store d.visited l d.w d.ms with
+  | mk o wm =>
+    obtain ⟨w1, ms1⟩ := wm
+    cases o with
+    | err k => exact ⟨.nil, .nil, .nil, .nil, .nil, by ir_simp [renderLine_elems, hr]⟩
+    | panic q => exact ⟨.nil, .nil, .nil, .nil, .nil, by ir_simp [renderLine_elems, hr]⟩
+    | ok t =>
+      cases hc : l.cond with
+      | none => exact ⟨.mk t, .nil, .bool false, a14, a15, by ir_simp [renderLine_elems, hr, hc]⟩
+      | some cnd =>
+        cases he : eval henv d.store d.visited cnd w1 with
+        | mk o2 w2 =>
+          cases o2 with
+          | err k => exact ⟨.nil, .nil, .nil, .nil, .nil, by ir_simp [renderLine_elems, hr, hc, he]⟩
+          | panic q => exact ⟨.nil, .nil, .nil, .nil, .nil, by ir_simp [renderLine_elems, hr, hc, he]⟩
+          | ok v =>
+            cases v with
+            | num x => exact ⟨.nil, .nil, .nil, .nil, .nil, by ir_simp [renderLine_elems, hr, hc, he]⟩
+            | str x => exact ⟨.nil, .nil, .nil, .nil, .nil, by ir_simp [renderLine_elems, hr, hc, he]⟩
+            | bool bb => exact ⟨.mk t, .nil, .bool (!bb), .val (.bool bb), .nil, by ir_simp [renderLine_elems, hr, hc, he]⟩
+
+theorem opt_loop (user : User σ π μ) (c : Nat) (stk : List SQ) (last : Option Stmt) (a1 a2 a3 a4 a5 a6 a7 : GV μ)
+    (os : List (LineSpec × List Stmt)) :
+    ∀ (n : Nat) (acc : List (μ × List String × Bool)) (d : Data σ π) (a9 a10 a11 a12 a13 a14 a15 : GV μ),
+    ∃ b9 b10 b11 b12 b13 b14 b15,
+    loop (fun env g => execSs henv mkp prog user .dr env optBody g) (some 9) (some 10)
+        (RunnerIR.enumFrom .int n (os.map .opt)) [.int c, a1, a2, a3, a4, a5, a6, a7, .optVs (acc), a9, a10, a11, a12, a13, a14, a15, .nil, .nil, .nil, .nil, .nil, .nil, .nil] ⟨d, stk, last⟩ =
+      match renderOptions henv mkp d.store d.visited os d.w d.ms with
+      | (.ok r, w, ms) => .norm [.int c, a1, a2, a3, a4, a5, a6, a7, .optVs (acc ++ r), b9, b10, b11, b12, b13, b14, b15, .nil, .nil, .nil, .nil, .nil, .nil, .nil] ⟨{ d with w := w, ms := ms }, stk, last⟩
+      | (.err _, w, ms) => .ret [.nil, .err] ⟨{ d with w := w, ms := ms }, stk, none⟩
+      | (.panic q, w, ms) => .panic q ⟨{ d with w := w, ms := ms }, stk, last⟩ := by
+  induction os with
+  | nil =>
+    intro n acc d a9 a10 a11 a12 a13 a14 a15
+    exact ⟨a9, a10, a11, a12, a13, a14, a15, by simp [loop, RunnerIR.enumFrom, renderOptions]⟩
+  | cons lb os ih =>
+    intro n acc d a9 a10 a11 a12 a13 a14 a15
+    obtain ⟨l, b⟩ := lb
+    obtain ⟨c11, c12, c13, c14, c15, hb⟩ := opt_body henv mkp prog user c d stk last a1 a2 a3 a4 a5 a6 a7 a11 a12 a13 a14 a15 acc n l b
+    simp only [List.map_cons, RunnerIR.enumFrom, loop, setOpt, List.set, hb, renderOptions_cons]
+    cases hs : optStep henv mkp d.store d.visited l d.w d.ms with
+    | mk o wm =>
+      obtain ⟨w1, ms1⟩ := wm
+      cases o with
+      | err k => exact ⟨.nil, .nil, .nil, .nil, .nil, .nil, .nil, by simp⟩
+      | panic q => exact ⟨.nil, .nil, .nil, .nil, .nil, .nil, .nil, by simp⟩
+      | ok o =>
+        obtain ⟨b9, b10, b11, b12, b13, b14, b15, h⟩ := ih (n + 1) (acc ++ [o]) { d with w := w1, ms := ms1 } (.int n) (.opt (l, b)) c11 c12 c13 c14 c15
+        refine ⟨b9, b10, b11, b12, b13, b14, b15, ?_⟩
+        simp only [] at h ⊢
+        rw [h]
+        cases renderOptions henv mkp d.store d.visited os w1 ms1 with
+        | mk o3 wm => obtain ⟨w3, ms3⟩ := wm; cases o3 <;> simp
+
+theorem opt_pre (user : User σ π μ) (c : Nat) (d : Data σ π) (stk : List SQ) (last : Option Stmt) (a1 a2 a3 a5 : GV μ)
+    (os : List (LineSpec × List Stmt)) :
+    execSs henv mkp prog user .dr (envN c a1 a2 a3 (.stmt (.opts os)) a5) optPre ⟨d, stk, last⟩ =
+      .norm [.int c, a1, a2, a3, (.stmt (.opts os)), a5, .nil, .nil, .optVs ([]), .nil, .nil, .nil, .nil, .nil, .nil, .nil, .nil, .nil, .nil, .nil, .nil, .nil, .nil] ⟨d, stk, last⟩ := by
+  simp only [optPre, optBranch, nextSwitch, fn_Next, List.drop, List.take, hd, iteThn, iteEls]
+  ir_simp [envN]
+
+theorem opt_post (user : User σ π μ) (c : Nat) (d : Data σ π) (stk : List SQ) (last : Option Stmt) (a1 a2 a3 a5 : GV μ)
+    (os : List (LineSpec × List Stmt)) (r : List (μ × List String × Bool)) (b9 b10 b11 b12 b13 b14 b15 : GV μ) :
+    execSs henv mkp prog user .dr [.int c, a1, a2, a3, (.stmt (.opts os)), a5, .nil, .nil, .optVs (r), b9, b10, b11, b12, b13, b14, b15, .nil, .nil, .nil, .nil, .nil, .nil, .nil] optPost ⟨d, stk, last⟩ =
+      .ret [.elem (.options d.cur r), .nil] ⟨d, stk, last⟩ := by
+  simp only [optPost, optBranch, nextSwitch, fn_Next, List.drop, hd, iteThn, iteEls]
+  ir_simp []
+
+theorem switch_opts (user : User σ π μ) (c : Nat) (d : Data σ π) (stk : List SQ) (a1 a2 a3 a5 : GV μ)
+    (os : List (LineSpec × List Stmt)) :
+    execSs henv mkp prog user .dr (envN c a1 a2 a3 (.stmt (.opts os)) a5) nextSwitch ⟨d, stk, some (.opts os)⟩ =
+      stepRes c (exec henv mkp prog d (.opts os)) stk (.opts os) := by
+  have hsw : execSs henv mkp prog user .dr (envN c a1 a2 a3 (.stmt (.opts os)) a5) nextSwitch ⟨d, stk, some (.opts os)⟩ =
+      match execSs henv mkp prog user .dr (envN c a1 a2 a3 (.stmt (.opts os)) a5) optBranch ⟨d, stk, some (.opts os)⟩ with
+      | .norm env g => execSs henv mkp prog user .dr env finalRet g
+      | r => r := by
+    rw [switch_shape, execSs_cons']
+    simp [execSs_nil, execSs_single, execS, evalE, envN, field, fieldPure, binop, veq, isNil]
+  rw [hsw, opt_shape, execSs_append, opt_pre]
+  simp only []
+  rw [execSs_cons']
+  obtain ⟨b9, b10, b11, b12, b13, b14, b15, hl⟩ := opt_loop henv mkp prog user c stk (some (.opts os)) a1 a2 a3
+    (.stmt (.opts os)) a5 .nil .nil os 0 [] d .nil .nil .nil .nil .nil .nil .nil
+  simp only [execS, evalE, List.getElem?_cons_succ, List.getElem?_cons_zero, field, fieldPure, rangeItems, ite_true,
+    String.reduceEq, ite_false, hl, List.nil_append]
+  cases hr : renderOptions henv mkp d.store d.visited os d.w d.ms with
+  | mk o wm =>
+    obtain ⟨w, ms⟩ := wm
+    cases o with
+    | err k => simp [exec, hr, stepRes, applyCtlR, isOpts]
+    | panic q => simp [exec, hr, stepRes, applyCtlR, isOpts]
+    | ok r => simp [opt_post, exec, hr, stepRes, applyCtlR, isOpts]
+
 end Ysgo.C01IR
